@@ -2,7 +2,8 @@
 (* Generator of Cache-Control header STRINGS with the directive sequence they *)
 (* denote (CacheControl).  A header is built from pieces (one spelling of one  *)
 (* directive: case, quoted number, leading zeros, overflow, qualified form,    *)
-(* unknown extension, look-alike token, malformed lifetime, broken syntax)     *)
+(* unknown extension, look-alike token, malformed lifetime, broken syntax,     *)
+(* list elements that are not tokens)                                          *)
 (* joined by separators (",", OWS variants, empty list elements, a new header   *)
 (* LINE).  Only headers whose meaning is unambiguous under RFC 9111 / RFC 9110  *)
 (* 5.6.1 are produced; `bad` marks headers whose only acceptable treatment is   *)
@@ -45,8 +46,11 @@ Pieces == <<
   P("max-age=3s", D1("max-age", 0), TRUE), P("s-maxage=-1", D1("s-maxage", 0), TRUE), P("s-maxage=1e3", D1("s-maxage", 0), TRUE),
   \* 45-48 broken list syntax: the directive set cannot be determined
   P("foo=" \o Q \o "bar", <<>>, TRUE), P("public max-age=3", <<Dir("public", NoArg), Dir("max-age", 3)>>, TRUE),
-  P("public;max-age=3", <<Dir("public", NoArg), Dir("max-age", 3)>>, TRUE), P("public" \o Q \o "x" \o Q, D1("public", NoArg), TRUE)
+  P("public;max-age=3", <<Dir("public", NoArg), Dir("max-age", 3)>>, TRUE), P("public" \o Q \o "x" \o Q, D1("public", NoArg), TRUE),
+  \* 49-53 a list element that is not a token (RFC 9110 5.6.2 tchar): malformed, but self-delimiting, so it may stand anywhere
+  P("/private", <<>>, TRUE), P(";no-store", <<>>, TRUE), P("@foo", <<>>, TRUE), P("pri/vate", <<>>, TRUE), P("no-store;", <<>>, TRUE)
 >>
+TailBad == 45..48
 NPieces == Len(Pieces)
 Seps == <<",", ", ", " , ", ",,", ",	", "LINE", " ,, ">>
 
@@ -56,7 +60,7 @@ IsLifetime(p) == Len(Pieces[p].dirs) = 1 /\ Pieces[p].dirs[1].d \in {"max-age", 
 Addable(p) ==
   /\ (Pieces[p].bad /\ IsLifetime(p)) => \A i \in 1..Len(pcs) : ~IsLifetime(pcs[i])
   /\ IsLifetime(p) => \A i \in 1..Len(pcs) : ~(Pieces[pcs[i]].bad /\ IsLifetime(pcs[i]))
-  /\ \A i \in 1..Len(pcs) : ~(Pieces[pcs[i]].bad /\ ~IsLifetime(pcs[i]))
+  /\ \A i \in 1..Len(pcs) : pcs[i] \notin TailBad
 
 GenInit == pcs = <<>> /\ seps = <<>>
 GenNext == /\ Len(pcs) < MaxPieces
